@@ -64,6 +64,12 @@ theorem settle_pieces (s : State) (k : EnvId) (o : SettleOracle) (h : (s.env? k)
       · simp only [h2, if_true]
         simp
       · simp only [h2]
+        by_cases h2b : lockFailure (launchedTasks (dropPending s k) k
+            (List.filter (fun d => decide (d.1 ∉ List.map (fun x => x.1) (claimsOf (dropPending s k) p))) (descriptors p.spec)) o) = true
+        · -- a launched task cannot be locked: acquireTasks fails in its own tail
+          simp only [h2b, if_true, settleTail_eq]
+          simp
+        simp only [h2b]
         by_cases h3 : (!(acquire (dropPending s k) k p.spec (claimsOf (dropPending s k) p) o).deployOk ||
             !(claimsOf (dropPending s k) p).isEmpty) = true
         · simp only [h3, if_true, settleTail_eq]
@@ -435,7 +441,11 @@ theorem deploy_ok_hyps (s : State) (k : EnvId) (o : SettleOracle) (h : Inv s) (h
       simp at hok
     · split at hd
       · injection hd with _ hd; injection hd with hd _; simp at hd
-      · rw [hcl] at hd
+      · split at hd
+        · -- a launched task cannot be locked: DEPLOY fails
+          injection hd with _ hd; injection hd with hd _; injection hd with hd; subst hd
+          simp at hok
+        rw [hcl] at hd
         injection hd with hs1 hd; injection hd with hm _; injection hm with hm
         subst hs1; subst hm
         simp only [] at hok ⊢
@@ -510,13 +520,16 @@ theorem settleDeploy_res (s : State) (k : EnvId) (o : SettleOracle) (s1 : State)
     · split at hd
       · injection hd with _ hd; injection hd with h1 h2
         left; exact ⟨h1.symm, Or.inr h2.symm⟩
-      · injection hd with _ hd; injection hd with h1 _
-        right
-        refine ⟨_, h1.symm, ?_⟩
-        simp only []
-        split
-        · right; rfl
-        · left; rfl
+      · split at hd
+        · injection hd with _ hd; injection hd with h1 _
+          right; exact ⟨_, h1.symm, Or.inr rfl⟩
+        · injection hd with _ hd; injection hd with h1 _
+          right
+          refine ⟨_, h1.symm, ?_⟩
+          simp only []
+          split
+          · right; rfl
+          · left; rfl
 
 theorem settleTail_res (s : State) (m : Mid) : (settleTail s m).2 = .hang ∨ (settleTail s m).2 = m.res := by
   unfold settleTail settleKill
@@ -683,11 +696,14 @@ theorem settleDeploy_facts (s : State) (k : EnvId) (o : SettleOracle) (h : Inv s
       rw [hcl]
       split
       · exact ⟨inv_congr hd rfl rfl rfl rfl rfl, fun m hm => by simp at hm, hsub⟩
-      · have ha := inv_acquire_fn (dropPending s k) k p.spec (computeClaims (dropPending s k) p.spec) o hd hp (computeClaims_sound _ _)
-        refine ⟨ha, fun m hm => ?_, ?_⟩
-        · simp only [Option.some.injEq] at hm; subst hm
-          exact ⟨rfl, by rw [acquire_creating]; exact hp⟩
-        · rw [acquire_creating]; exact hsub
+      · split
+        · exact ⟨inv_acquireUnlocked _ k _ o hd,
+            fun m hm => by simp only [Option.some.injEq] at hm; subst hm; exact ⟨rfl, hp⟩, hsub⟩
+        · have ha := inv_acquire_fn (dropPending s k) k p.spec (computeClaims (dropPending s k) p.spec) o hd hp (computeClaims_sound _ _)
+          refine ⟨ha, fun m hm => ?_, ?_⟩
+          · simp only [Option.some.injEq] at hm; subst hm
+            exact ⟨rfl, by rw [acquire_creating]; exact hp⟩
+          · rw [acquire_creating]; exact hsub
 
 theorem inv_settleRest (s : State) (m : Mid) (h : Inv s) (hp : ∀ p ∈ s.creating, p.id ≠ m.k) :
     Inv (settleRest s m).1 ∧ (settleRest s m).1.creating = s.creating := by
